@@ -22,6 +22,7 @@ LEVEL_TEXT = ("every history up to length 3 (quick) / 4 (thorough) over an alpha
               "x tolerance {None,0,1e-10,0.5} x {no transform, sign-flipping objective transform}, 'best' and 'last' trackers; sampled longer histories with several results per event; real optimizations")
 LEVEL_NOTE = "trusted: reference tracker in this file; ties accept any minimal result; if only NaN-objective results were delivered both 'nothing' and such a result are accepted"
 ANCHOR_FILES = ["src/ropt/plugins/plan/_tracker.py", "src/ropt/plugins/plan/_utils.py", "src/ropt/plan/_basic_optimizer.py", "src/ropt/plugins/plan/optimizer.py"]
+EXECUTION_COUNTERS = ["histories", "basic_optimizer_runs"]   # executions of the oracle inside the cases (reported as coverage.evaluations)
 RULE = ("case = (first event kind(s), tolerance, transform) with every continuation inside; a history is non-trivial if it delivers at least one feasible tracked function result; "
         "distinct key = case; monitor_counters: histories, prefix states compared")
 ASSUMPTIONS = ["user-domain and optimizer-domain violations of a synthetic result agree about feasibility"]
